@@ -32,6 +32,10 @@ def to_bv(v, w):
         return v
     if isinstance(v, bool):
         return z3.BitVecVal(1 if v else 0, w)
+    if isinstance(v, float) and v == int(v) and abs(v) < 2 ** 52 and w <= 53:
+        # a float CONSTANT with an integral value (e.g. 64 / 4) meeting machine integers: + - * of such a value with integers
+        # that fit the vector (no-overflow obligations) are exact in double precision, so it is the integer it denotes
+        v = int(v)
     if isinstance(v, int):
         if not (-(1 << (w - 1)) <= v < (1 << (w - 1))):
             raise EngineError("constant %d does not fit the %d-bit vector model" % (v, w))
@@ -323,7 +327,7 @@ def bv_sdiv_floor(a, b):
 
 
 def bv_smod_floor(a, b):
-    return z3.SMod(a, b)     # sign follows the divisor, as in python
+    return a % b     # (z3: bvsmod on signed vectors) sign follows the divisor, as in python
 
 
 class Arith(object):
